@@ -1,6 +1,5 @@
 use std::{
     cmp::Ordering,
-    collections::HashSet,
     fmt::Debug,
     hash::{Hash, Hasher},
 };
@@ -12,6 +11,7 @@ use std::time::Instant;
 use web_time::Instant;
 
 use cactus::Cactus;
+use indexmap::IndexSet;
 use cfgrammar::{Span, TIdx};
 use lrtable::{Action, StIdx};
 use num_traits::{AsPrimitive, PrimInt, Unsigned};
@@ -546,12 +546,14 @@ fn simplify_repairs<
         }
     }
 
-    // Use a HashSet as a quick way of deduplicating repair sequences: occasionally we can end up
+    // Use a hash set as a quick way of deduplicating repair sequences: occasionally we can end up
     // with hundreds of thousands (!), and we don't have a sensible ordering on ParseRepair to make
     // it plausible to do a sort and dedup.
-    let mut hs: HashSet<Vec<ParseRepair<LexerTypesT::LexemeT, StorageT>>> =
+    // (An `IndexSet` keeps the order in which the sequences were found, so that which of several
+    // equally ranked sequences comes first - and is applied - does not vary from run to run.)
+    let mut hs: IndexSet<Vec<ParseRepair<LexerTypesT::LexemeT, StorageT>>> =
         all_rprs.drain(..).collect();
-    all_rprs.extend(hs.drain());
+    all_rprs.extend(hs.drain(..));
 
     // Sort repair sequences:
     //   1) by whether they contain Inserts that are %insert_avoid
@@ -566,7 +568,7 @@ fn simplify_repairs<
         }
         false
     };
-    all_rprs.sort_unstable_by(|x, y| {
+    all_rprs.sort_by(|x, y| {
         let x_cai = contains_avoid_insert(x);
         let y_cai = contains_avoid_insert(y);
         if x_cai && !y_cai {
